@@ -5,10 +5,18 @@
    activation chain with invalidation, both destructor loops, liveness flag on every object: touching a
    destroyed object is `Fail`).  Reference object = CallbackSpec (live connections with serial numbers;
    per signal the watermark of the outermost emission in progress and one cursor per emission).
-   Slot behaviours are scripts `sc : listener -> slot -> list action`, universally quantified; a script may
+   Slot behaviours are programs with memory, universally quantified: `sc : list inv -> listener -> slot -> list action`
+   gets the invocation log of the top-level operation in progress (newest first, the head being the invocation
+   served), and over a history `hsc : list (list inv) -> scripts` also the logs of all earlier top-level operations -
+   a slot may act differently at its second invocation, count, react to what other slots did.  A script may
    connect, disconnect, emit again, destroy listeners or emitters (itself included); nesting is bounded by
    `maxd` only (emissions deeper than maxd are skipped by the client on both sides) and every theorem holds
    for every fuel, the model running out of fuel exactly when the reference object does.
+   Which of several IDENTICAL connections a disconnect cancels is not fixed by the property text: the reference
+   object takes a policy `pick : picker` (CallbackSpec.sp_disconnect_at; every policy removes exactly one matching
+   connection and nothing else, C12_disconnect_any_choice_removes_one).  The theorems about the reference object alone hold
+   for every policy; the code's policy is `oldest` (C12_code_policy_is_oldest) and the refinement theorems are
+   stated for it.
    `R st p` is the refinement relation (CallbackInv.v): liveness flags agree, every live signal's slot list
    minus the entries marked disconnected is the reference object's connection list of that signal in order,
    connecting <-> made after the watermark, every activation's iterator sits where the matching cursor is,
@@ -38,6 +46,8 @@
    while an emission of that signal is in progress - what makes the     primitives; only ~Emitter of that emitter and the end of the
    model's "iterator = index" faithful to the C++ list iterators:        outermost emission remove nodes), C12_slot_keeps_nodes,
    entries are only appended or re-marked                                C12_emission_keeps_nodes (whatever the slots do, any nesting)
+   disconnect cancels exactly one of the identical connections, under      C12_disconnect_any_choice_removes_one,
+   every policy; the code cancels the oldest                               C12_code_policy_is_oldest
    (tie) the interpreter the correspondence driver runs, which also     C12_trace_erasure
    records the emitting signal's internal data at every slot entry
    and exit, is the proved interpreter plus that trace *)
@@ -50,7 +60,7 @@ Proof. exact (fun ne nl nsg => conj (R_init ne nl nsg) (Quiet_init ne nl nsg)). 
 Print Assumptions C12_refinement_init.
 
 Theorem C12_step_refines : forall sc maxd st p fuel a, R st p ->
-  match step sc maxd fuel st a, spec_step sc maxd fuel p a with
+  match step sc maxd fuel st a, spec_step oldest sc maxd fuel p a with
   | Done (st', lg), Done (p', lg') => lg = lg' /\ R st' p'
   | OutOfFuel lg, OutOfFuel lg' => lg = lg'
   | _, _ => False
@@ -59,7 +69,7 @@ Proof. exact step_refines. Qed.
 Print Assumptions C12_step_refines.
 
 Theorem C12_nested_refines : forall sc maxd fuel d st p lg acts, R st p ->
-  match exec sc maxd fuel d st lg acts, sexec sc maxd fuel d p lg acts with
+  match exec sc maxd fuel d st lg acts, sexec oldest sc maxd fuel d p lg acts with
   | Done (st', lg1), Done (p', lg2) => lg1 = lg2 /\ R st' p'
   | OutOfFuel l1, OutOfFuel l2 => l1 = l2
   | _, _ => False
@@ -67,8 +77,9 @@ Theorem C12_nested_refines : forall sc maxd fuel d st p lg acts, R st p ->
 Proof. exact nested_refines. Qed.
 Print Assumptions C12_nested_refines.
 
-Theorem C12_logs_equal_reference : forall sc maxd fuel ne nl nsg ops,
-  match hrun (step sc maxd fuel) (init ne nl nsg) ops, hrun (spec_step sc maxd fuel) (sp_init ne nl nsg) ops with
+Theorem C12_logs_equal_reference : forall (hsc : hscripts) maxd fuel ne nl nsg ops,
+  match hrun (fun h => step (hsc h) maxd fuel) [] (init ne nl nsg) ops,
+        hrun (fun h => spec_step oldest (hsc h) maxd fuel) [] (sp_init ne nl nsg) ops with
   | HDone st' lgs, HDone p' lgs' => lgs = lgs' /\ R st' p' /\ Quiet p'
   | HFuel, HFuel => True
   | _, _ => False
@@ -76,13 +87,13 @@ Theorem C12_logs_equal_reference : forall sc maxd fuel ne nl nsg ops,
 Proof. exact histories_match. Qed.
 Print Assumptions C12_logs_equal_reference.
 
-Theorem C12_never_touches_dead_object : forall sc maxd fuel ne nl nsg ops,
-  hrun (step sc maxd fuel) (init ne nl nsg) ops <> HFail.
+Theorem C12_never_touches_dead_object : forall (hsc : hscripts) maxd fuel ne nl nsg ops,
+  hrun (fun h => step (hsc h) maxd fuel) [] (init ne nl nsg) ops <> HFail.
 Proof. exact histories_safe. Qed.
 Print Assumptions C12_never_touches_dead_object.
 
-Theorem C12_bookkeeping_after_every_history : forall sc maxd fuel ne nl nsg ops st lgs,
-  hrun (step sc maxd fuel) (init ne nl nsg) ops = HDone st lgs -> Book st /\ NoResidue st.
+Theorem C12_bookkeeping_after_every_history : forall (hsc : hscripts) maxd fuel ne nl nsg ops st lgs,
+  hrun (fun h => step (hsc h) maxd fuel) [] (init ne nl nsg) ops = HDone st lgs -> Book st /\ NoResidue st.
 Proof. exact histories_bookkeeping. Qed.
 Print Assumptions C12_bookkeeping_after_every_history.
 
@@ -125,18 +136,18 @@ Theorem C12_turn_none_complete : forall p e sg k ks, em_cur (sp_em p e sg) = k :
 Proof. exact sp_turn_none. Qed.
 Print Assumptions C12_turn_none_complete.
 
-Theorem C12_reference_stacks_balanced : forall sc maxd fuel p a p' lg,
-  spec_step sc maxd fuel p a = Done (p', lg) -> forall e sg, em_cur (sp_em p' e sg) = em_cur (sp_em p e sg).
-Proof. exact (fun sc maxd fuel p a p' lg H => proj1 (spec_frame sc maxd fuel) 0 p [] [a] p' lg H). Qed.
+Theorem C12_reference_stacks_balanced : forall pick sc maxd fuel p a p' lg,
+  spec_step pick sc maxd fuel p a = Done (p', lg) -> forall e sg, em_cur (sp_em p' e sg) = em_cur (sp_em p e sg).
+Proof. exact (fun pick sc maxd fuel p a p' lg H => proj1 (spec_frame sc maxd pick fuel) 0 p [] [a] p' lg H). Qed.
 Print Assumptions C12_reference_stacks_balanced.
 
-Theorem C12_enough_fuel_exists : forall sc maxd ne nl nsg ops,
-  exists f0 st lgs, forall f, f0 <= f -> hrun (step sc maxd f) (init ne nl nsg) ops = HDone st lgs.
+Theorem C12_enough_fuel_exists : forall (hsc : hscripts) maxd ne nl nsg ops,
+  exists f0 st lgs, forall f, f0 <= f -> hrun (fun h => step (hsc h) maxd f) [] (init ne nl nsg) ops = HDone st lgs.
 Proof. exact model_history_terminates. Qed.
 Print Assumptions C12_enough_fuel_exists.
 
-Theorem C12_reference_step_terminates : forall sc maxd p a, WOK p ->
-  exists f0 p' lg, forall f, f0 <= f -> spec_step sc maxd f p a = Done (p', lg) /\ WOK p'.
+Theorem C12_reference_step_terminates : forall pick sc maxd p a, WOK p ->
+  exists f0 p' lg, forall f, f0 <= f -> spec_step pick sc maxd f p a = Done (p', lg) /\ WOK p'.
 Proof. exact spec_step_terminates. Qed.
 Print Assumptions C12_reference_step_terminates.
 
@@ -145,14 +156,33 @@ Theorem C12_fuel_irrelevant_model : forall sc maxd f d st lg acts r,
 Proof. exact (fun sc maxd f => proj1 (model_fuel_mono sc maxd f)). Qed.
 Print Assumptions C12_fuel_irrelevant_model.
 
-Theorem C12_fuel_irrelevant_reference : forall sc maxd f d p lg acts r,
-  sexec sc maxd f d p lg acts = Done r -> forall f', f <= f' -> sexec sc maxd f' d p lg acts = Done r.
-Proof. exact (fun sc maxd f => proj1 (spec_fuel_mono sc maxd f)). Qed.
+Theorem C12_fuel_irrelevant_reference : forall pick sc maxd f d p lg acts r,
+  sexec pick sc maxd f d p lg acts = Done r -> forall f', f <= f' -> sexec pick sc maxd f' d p lg acts = Done r.
+Proof. exact (fun pick sc maxd f => proj1 (spec_fuel_mono pick sc maxd f)). Qed.
 Print Assumptions C12_fuel_irrelevant_reference.
 
 Theorem C12_trace_erasure : forall sc maxd fuel st a, strip (step_tr sc maxd fuel st a) = step sc maxd fuel st a.
 Proof. exact step_tr_erasure. Qed.
 Print Assumptions C12_trace_erasure.
+
+Theorem C12_reference_history_terminates : forall (hpick : list (list inv) -> picker) (hsc : hscripts) maxd ops h p, WOK p ->
+  exists f0 p' lgs, forall f, f0 <= f -> hrun (fun h => spec_step (hpick h) (hsc h) maxd f) h p ops = HDone p' lgs.
+Proof. exact spec_history_terminates. Qed.
+Print Assumptions C12_reference_history_terminates.
+
+(* whatever the policy answers, a disconnect cancels exactly one connection with that key (none if there is none) and
+   leaves every other connection where it is *)
+Theorem C12_disconnect_any_choice_removes_one : forall k p e sg l s,
+  count (ckey e sg l s) (sp_conns (sp_disconnect_at k p e sg l s)) = pred (count (ckey e sg l s) (sp_conns p)) /\
+  filter (fun c => negb (ckey e sg l s c)) (sp_conns (sp_disconnect_at k p e sg l s)) = filter (fun c => negb (ckey e sg l s c)) (sp_conns p) /\
+  (forall c, In c (sp_conns (sp_disconnect_at k p e sg l s)) -> In c (sp_conns p)) /\
+  sp_next (sp_disconnect_at k p e sg l s) = sp_next p /\ sp_em (sp_disconnect_at k p e sg l s) = sp_em p.
+Proof. exact disconnect_at_removes_one. Qed.
+Print Assumptions C12_disconnect_any_choice_removes_one.
+
+Theorem C12_code_policy_is_oldest : forall p e sg l s, sp_disconnect_at (oldest p e sg l s) p e sg l s = sp_disconnect p e sg l s.
+Proof. exact sp_disconnect_at_0. Qed.
+Print Assumptions C12_code_policy_is_oldest.
 
 Theorem C12_cleanup_leaves_connected : forall sl, forallb is_conn (cleanup sl) = true.
 Proof. exact cleanup_all_connected. Qed.
@@ -189,17 +219,17 @@ Print Assumptions C12_emission_keeps_nodes.
 (* ---- non-vacuity: concrete histories on which the hypotheses hold and something happens ---- *)
 (* slot 0.0 disconnects, re-connects and disconnects itself inside one emission, then its listener dies
    (the history that used to leave a dangling slot): the log is one invocation, then nothing *)
-Definition ex_sc1 : scripts := fun l s =>
+Definition ex_sc1 : scripts := fun _ l s =>
   match l, s with 0, 0 => [ADisconnect 0 0 0 0; AConnect 0 0 0 0; ADisconnect 0 0 0 0] | _, _ => [] end.
 Definition ex_ops1 := [AConnect 0 0 0 0; AEmit 0 0; ADestroyL 0; AEmit 0 0].
-Example ex1_model : exists st, hrun (step ex_sc1 3 100) (init 2 2 1) ex_ops1 = HDone st [[]; [mkInv 0 0 0 0]; []; []].
+Example ex1_model : exists st, hrun (fun _ => step ex_sc1 3 100) [] (init 2 2 1) ex_ops1 = HDone st [[]; [mkInv 0 0 0 0]; []; []].
 Proof. eexists. vm_compute. reflexivity. Qed.
-Example ex1_spec : exists p, hrun (spec_step ex_sc1 3 100) (sp_init 2 2 1) ex_ops1 = HDone p [[]; [mkInv 0 0 0 0]; []; []].
+Example ex1_spec : exists p, hrun (fun _ => spec_step oldest ex_sc1 3 100) [] (sp_init 2 2 1) ex_ops1 = HDone p [[]; [mkInv 0 0 0 0]; []; []].
 Proof. eexists. vm_compute. reflexivity. Qed.
 
 (* nested: slot 0.0 re-emits; slot 1.1 (pending in both emissions) is disconnected by slot 0.2 of the inner one,
    listener 1 is destroyed by slot 0.3, the emitter by slot 1.0 of another emitter's signal *)
-Definition ex_sc2 : scripts := fun l s =>
+Definition ex_sc2 : scripts := fun _ l s =>
   match l, s with
   | 0, 0 => [AEmit 0 0; AConnect 0 0 1 2]
   | 0, 2 => [ADisconnect 0 0 1 1]
@@ -210,7 +240,7 @@ Definition ex_sc2 : scripts := fun l s =>
 Definition ex_ops2 := [AConnect 0 0 0 0; AConnect 0 0 0 2; AConnect 0 0 1 1; AConnect 0 0 0 3; AConnect 1 0 1 0;
                        AEmit 0 0; AEmit 0 0; AConnect 1 0 0 3; AEmit 1 0].
 Example ex2_agree :
-  match hrun (step ex_sc2 2 200) (init 2 2 1) ex_ops2, hrun (spec_step ex_sc2 2 200) (sp_init 2 2 1) ex_ops2 with
+  match hrun (fun _ => step ex_sc2 2 200) [] (init 2 2 1) ex_ops2, hrun (fun _ => spec_step oldest ex_sc2 2 200) [] (sp_init 2 2 1) ex_ops2 with
   | HDone _ l1, HDone _ l2 => l1 = l2 /\ length (concat l1) = 14
   | _, _ => False
   end.
@@ -252,3 +282,33 @@ Example ex_script_keeps_nodes : exists st' lg',
   exec ex_sc1 3 100 1 ex_emitting [] [ADisconnect 0 0 0 0; AConnect 0 0 0 0; ADisconnect 0 0 0 0; AEmit 0 0] = Done (st', lg') /\
   map node (slotsOf (sdo st' 0 0)) = map node (slotsOf (sdo ex_emitting 0 0)) ++ [(0, 0)] /\ length (actsOf (sdo st' 0 0)) = 1.
 Proof. eexists. eexists. split; [vm_compute; reflexivity|]. split; reflexivity. Qed.
+
+(* a slot with memory: slot 0.0 disconnects itself at its first invocation of a history, at the second (it was
+   connected again at top level) it emits the signal again - a nested emission in which it is invoked a third time and,
+   like at every later invocation, connects slot 1.1; slot 1.1 destroys the emitter the second time it runs *)
+Definition times (l s : nat) (lg : list inv) : nat := length (filter (fun v => (i_l v =? l) && (i_s v =? s)) lg).
+Definition ex_hsc3 : hscripts := fun h lg l s =>
+  let n := times l s (lg ++ concat h) in
+  match l, s with
+  | 0, 0 => match n with 1 => [ADisconnect 0 0 0 0] | 2 => [AEmit 0 0] | _ => [AConnect 0 0 1 1] end
+  | 1, 1 => match n with 2 => [ADestroyE 0] | _ => [] end
+  | _, _ => []
+  end.
+Definition ex_ops3 := [AConnect 0 0 0 0; AEmit 0 0; AConnect 0 0 0 0; AEmit 0 0; AEmit 0 0; AEmit 0 0; AEmit 0 0].
+Example ex3_memory :
+  match hrun (fun h => step (ex_hsc3 h) 3 200) [] (init 2 2 1) ex_ops3, hrun (fun h => spec_step oldest (ex_hsc3 h) 3 200) [] (sp_init 2 2 1) ex_ops3 with
+  | HDone _ l1, HDone _ l2 => l1 = l2 /\ l1 = [[]; [mkInv 0 0 0 0]; []; [mkInv 0 0 0 0; mkInv 0 0 0 0]; [mkInv 0 0 1 1; mkInv 0 0 0 0]; [mkInv 0 0 1 1; mkInv 0 0 0 0]; []]
+  | _, _ => False
+  end.
+Proof. vm_compute. split; reflexivity. Qed.
+
+(* the choice among identical connections: a, b, a connected; cancelling "an a" leaves b, a under the policy `oldest`
+   and a, b under the policy "newest" - both have exactly one a left *)
+Definition ex_dup := sp_connect (sp_connect (sp_connect (sp_init 1 2 1) 0 0 0 0) 0 0 1 1) 0 0 0 0.
+Example ex_pick_oldest : map (fun c => (c_l c, c_s c)) (sp_conns (sp_disconnect_at 0 ex_dup 0 0 0 0)) = [(1, 1); (0, 0)].
+Proof. reflexivity. Qed.
+Example ex_pick_newest : map (fun c => (c_l c, c_s c)) (sp_conns (sp_disconnect_at 7 ex_dup 0 0 0 0)) = [(0, 0); (1, 1)].
+Proof. reflexivity. Qed.
+Example ex_pick_in_run : exists p, spec_step (fun _ _ _ _ _ => 1) (fun _ _ _ => []) 3 10 ex_dup (ADisconnect 0 0 0 0) = Done (p, []) /\
+  map (fun c => (c_l c, c_s c)) (sp_conns p) = [(0, 0); (1, 1)].
+Proof. eexists. split; [vm_compute; reflexivity|reflexivity]. Qed.
